@@ -307,9 +307,12 @@ def check_main(args):
             new.append(w)
         else:
             known_hit.setdefault(k['id'], {'entry': k, 'n': 0, 'example': w['detail']})['n'] += 1
-    os.makedirs(os.path.join(VERIF, 'replays'), exist_ok=True)
+    # SFMON_OUT redirects evidence/ and replays/ (used when a check is pointed at a scratch copy via SF_REPO,
+    # so that runs against deliberately broken trees never overwrite the evidence of /repo itself)
+    OUT = os.environ.get('SFMON_OUT') or VERIF
+    os.makedirs(os.path.join(OUT, 'replays'), exist_ok=True)
     import glob
-    for old_path in glob.glob(os.path.join(VERIF, 'replays', f'{pid}-*.json')):
+    for old_path in glob.glob(os.path.join(OUT, 'replays', f'{pid}-*.json')):
         os.remove(old_path)
     from sfmon.canon import fp
     printed = set()
@@ -319,7 +322,7 @@ def check_main(args):
         if key in printed:
             continue
         printed.add(key)
-        path = os.path.join(VERIF, 'replays', f'{pid}-{key}.json')
+        path = os.path.join(OUT, 'replays', f'{pid}-{key}.json')
         with open(path, 'w') as f:
             json.dump(w, f, indent=1)
         replay_paths.append(path)
@@ -355,8 +358,8 @@ def check_main(args):
         'assumptions': list(getattr(mod, 'ASSUMPTIONS', ())),
         'wall_s': round(wall, 2), 'violations': len(replay_paths),
     }
-    os.makedirs(os.path.join(VERIF, 'evidence'), exist_ok=True)
-    with open(os.path.join(VERIF, 'evidence', f'{pid}.json'), 'w') as f:
+    os.makedirs(os.path.join(OUT, 'evidence'), exist_ok=True)
+    with open(os.path.join(OUT, 'evidence', f'{pid}.json'), 'w') as f:
         json.dump(ev, f, indent=1, default=str)
 
     for kid, v in sorted(known_hit.items()):
